@@ -250,6 +250,11 @@ def run_dom_op(world, st, aid, op):
                 name, op.get('attr', '-'), field_class(d)),
                 {'op': op, 'tree': k, 'path': d, 'exc': res.get('exc')})
 
+    if name == 'generate_stats' and op.get('tree') in before and \
+       op.get('tree') in after:
+        res['before'] = before[op['tree']]
+        res['after'] = after[op['tree']]
+
     g = snap_globals(L)
     d = first_diff(st.globals0, g)
 
